@@ -34,7 +34,11 @@ SPELLINGS = {
     'select_into': ['SELECT * INTO nt3 FROM t', 'SELECT a INTO TEMP nt4 FROM t WHERE a > 1'],
     'multi_rw': ['SELECT 1; INSERT INTO t VALUES (1)', 'SELECT a FROM t; UPDATE t SET a = 1'],
     'multi_wr': ['INSERT INTO t VALUES (1); SELECT 1', 'DELETE FROM t; SELECT count(*) FROM t'],
-    'multi_rr': ['SELECT 1; SELECT 2', 'SELECT a FROM t; SELECT b FROM u'],
+    'multi_rr': ['SELECT 1; SELECT 2', 'SELECT a FROM t; SELECT b FROM u', 'SELECT 1; SELECT 2; SELECT 3'],
+    'multi_txr': ['BEGIN; SELECT 1', 'START TRANSACTION ISOLATION LEVEL REPEATABLE READ; SELECT 1; SELECT 2',
+                  'begin; select * from t where a = 1'],
+    'multi_txw': ['BEGIN; INSERT INTO t VALUES (1)', 'BEGIN; SELECT 1; UPDATE t SET a = 1'],
+    'multi_rtx': ['SELECT 1; BEGIN', 'SELECT 1; BEGIN; SELECT 2'],
     'unparseable': ['SELEC 1 oops', 'INSERT INTO INTO t', 'SELECT * FROM WHERE', 'NOTIFY chan'],
 }
 
@@ -103,9 +107,9 @@ def concretise_c05(rng, sc):
         elif op == 'stmt':
             sql = rng.choice(SPELLINGS[arg])
             proto = 'simple'
-            if arg not in ('multi_rw', 'multi_wr', 'multi_rr') and rng.random() < 0.3:
+            if not arg.startswith('multi_') and rng.random() < 0.3:
                 proto = 'extended'
-            if arg == 'txstart':
+            if arg in ('txstart', 'multi_txr', 'multi_txw', 'multi_rtx'):
                 # transaction: BEGIN; a read inside; COMMIT - all on the connection BEGIN got
                 steps.append({'kind': 'q', 'sql': sql})
                 meta.append({'m': 'stmt', 'class': arg, 'sql': sql, 'proto': 'simple'})
